@@ -57,13 +57,22 @@ def run_sequence(ctx, rng):
     trace, viol = [], []
     wsn = 0
     staged_ws = {}
+    # a directed opening for some histories around a legacy store: a directory holding content whose legacy and plain md5
+    # differ is staged into it, then the store is migrated to an md5 store (the rest of the history is random as before)
+    plan = []
+    if specs[0]["algo"] == "md5-dos2unix" and rng.random() < 0.45:
+        plan = [("stage_legacy", 0), ("migrate", 0, rng.randrange(1, n))]
+        ctx.count("directed opening: legacy content staged, then migrated")
     try:
         for step in range(rng.randrange(3, 10)):
             r = rng.random()
             i = rng.randrange(n)
+            forced = plan.pop(0) if plan else None
+            if forced:
+                i = forced[1]
             sp = specs[i]
             odb = sp["odb"]
-            if staged_ws and rng.random() < 0.2:
+            if forced is None and staged_ws and rng.random() < 0.2:
                 # a staged workspace is staged again after one of its files was replaced the way `rsync -t` / `cp -p` / an
                 # archive extractor does it: other bytes of the same length, the old timestamps, renamed over the path
                 ws = rng.choice(sorted(staged_ws))
@@ -84,7 +93,7 @@ def run_sequence(ctx, rng):
                     sp["files"] += list(files.values())
                     sp["trees"].append(files)
                     staged_ws[ws] = files
-            elif rng.random() < 0.22:
+            elif forced is None and rng.random() < 0.22:
                 # ---- a *verifying* transfer whose source does not hold what its names say (the only kind of source the
                 # property lets deviate: the destination was asked to check what it receives)
                 wsn += 1
@@ -93,13 +102,13 @@ def run_sequence(ctx, rng):
                 else:
                     t = _stage_rewritten_before_transfer(rng, root, wsn, i, sp, fs, build, transfer)
                 trace.append(t)
-            elif r < 0.3:
+            elif (forced and forced[0] == "stage_legacy") or (forced is None and r < 0.3):
                 files = gen.rand_tree(rng, max_files=5, max_depth=2)
                 if rng.random() < 0.5:
                     files[("crlf.txt",)] = b"line one\r\nline two\r\n" + bytes(rng.choice(b"ab") for _ in range(3))
                 wsn += 1
                 ws = os.path.join(root, "ws%d" % wsn)
-                if sp["algo"] == "md5-dos2unix" and rng.random() < 0.35:
+                if sp["algo"] == "md5-dos2unix" and (forced or rng.random() < 0.35):
                     # larger than one read chunk, binary head, CRLF text in the second chunk: the legacy md5 of such content
                     # differs from its md5 although its beginning looks binary
                     files[("mixed.bin",)] = b"\x00\x01\x02" * 200 + b"B" * (2**20 - 600) + b"text line\r\n" * (20 + rng.randrange(10))
@@ -119,7 +128,7 @@ def run_sequence(ctx, rng):
                     sp["trees"].append(files)
                     if ("mixed.bin",) not in files:
                         staged_ws[ws] = files
-            elif r < 0.45:
+            elif forced is None and r < 0.45:
                 wsn += 1
                 p = os.path.join(root, "single%d" % wsn)
                 data = gen.rand_content(rng) + rng.choice([b"", b"\r\n"])
@@ -129,7 +138,7 @@ def run_sequence(ctx, rng):
                 trace.append(["stage_file", i, kind if kind == "ok" else res])
                 if kind == "ok":
                     sp["files"].append(data)
-            elif r < 0.65:
+            elif forced is None and r < 0.65:
                 j = rng.randrange(n)
                 if j != i and specs[j]["algo"] == sp["algo"]:
                     oids = [o for o in stores.listing_of(odb.path) if rng.random() < 0.7]
@@ -141,7 +150,7 @@ def run_sequence(ctx, rng):
                                   kind if kind == "ok" else res])
                     if kind == "ok":
                         specs[j]["copied"] = specs[j].get("copied", set()) | set(oids)
-            elif r < 0.8 and sp["algo"] == "md5":
+            elif forced is None and r < 0.8 and sp["algo"] == "md5":
                 files = gen.rand_tree(rng, max_files=4, max_depth=2, allow_odd=False)
                 wsn += 1
                 ws = os.path.join(root, "iws%d" % wsn)
@@ -155,7 +164,7 @@ def run_sequence(ctx, rng):
                     for d in dirs:
                         sp["trees"].append({k[len(d):]: v for k, v in files.items() if k[: len(d)] == d})
             else:
-                j = rng.randrange(n)
+                j = forced[2] if forced else rng.randrange(n)
                 # the property speaks of migrating to *another* algorithm (a same-algorithm "migration" through a shared
                 # state database would pick up the '.dir'-suffixed names add() recorded: out of scope, noted in DESIGN.md)
                 if j != i and specs[j]["algo"] != sp["algo"]:
